@@ -16,8 +16,12 @@ TRUSTED = [
     "constant tables; the specification is the p-power map), fpN_exp_cyc / exp_cyc_sim / exp_cyc_sps / exp_dig (NAF and sparse loops), "
     "fpN_conv_cyc, fpN_test_cyc, fpN_srt / fpN_is_sqr (judged by r*r = a and Euler's criterion), fp12_pck/upk/pck_max/upk_max, "
     "fp2_pck/upk, fp2_mul_frb, fp8_mul_dxs, read_bin/write_bin/size_bin, *_dig helpers, the cyclotomic/compressed forms of fp18/fp24/fp48/fp54",
-    "the Lean model is hand-transcribed from the C text (not regenerated by the translator); the correspondence run compares it with the "
-    "implementation on every line (column M)",
+    "tools/translate_fpx.py regenerates 45 straight-line functions of src/fpx (mul_basic / sqr_basic / inv / mul_art of every level above "
+    "fp3, fp6/fp9_mul_dxs, fp8/fp16_sqr_cyc, fp12_sqr_cyc_basic, fp12_sqr_pck_basic, fp12_back_cyc) into Lean on every run; "
+    "Lemmas/FpxGen.lean proves each generated definition equal to the model definition the theorems are about (rfl). The accepted C "
+    "fragment is listed in the translator; anything else is a translation failure and breaks the build of the proofs. Hand-transcribed "
+    "(tied by the correspondence run, column M, only): the fp2 and fp3 functions (low-level calls and loops over qnr / cnr), "
+    "fp12_mul_dxs_basic (preprocessor and twist-type branches), fp2_mul_nor, and the loops",
     "tower constants (p, qnr, cnr, fp2_field_get_qnr, xi = fp2_mul_nor(1), xi3 = fp3_mul_nor(1), twist type, group order) are read from the "
     "running library in the fpx_param line; the driver checks their defining properties (qnr / cnr non-residues, xi consistent with the modelled "
     "switch, each level a field where inversion / Frobenius / square roots are exercised)",
@@ -32,8 +36,8 @@ RULE = ("per selectable prime / curve and tower level: zero, one, elements with 
         "elements, coefficients p-1 / (p±1)/2 / Montgomery-structured, dense uniform elements, elements of the cyclotomic subgroup and of order r; "
         "every public function variant by name; all alias patterns; Frobenius powers 0..degree; exponents 0, ±1, small, sparse, full-size, "
         "negative, multiples of the group order; non-trivial = distinct line with a non-error result whose precondition holds")
-USES_GENERATED = False
-EXTRA_THEOREM_MODULES = []
+USES_GENERATED = False      # the EP formula obligations are not C10's; the fpx translator is accounted for below
+EXTRA_THEOREM_MODULES = ["RelicVerif.Lemmas.FpxGen"]   # generated formula = model definition, one `rfl` per C function
 
 HERE = os.path.dirname(os.path.abspath(__file__))
 VERIF = os.path.dirname(os.path.dirname(HERE))
@@ -879,7 +883,19 @@ def _contexts(ctx, cfg, exe):
     return res
 
 
+def _translate():
+    """regenerate lean/RelicVerif/Gen/Fpx.lean from the C text (also done by translate.generate_all)"""
+    import translate_fpx
+    return translate_fpx.generate()
+
+
+def extra_evidence(ctx, recs):
+    r = _translate()
+    return {"generated_fpx": r["obligations"], "generated_fpx_failures": r["failures"]}
+
+
 def streams(ctx, scale=1):
+    _translate()
     res = []
     cfgs = ["base"] if ctx.tier == "quick" else ["base", "p381"] + sorted(HIGH_LEVELS)
     only = os.environ.get("C10_CFGS")
